@@ -25,12 +25,12 @@ M = [
  ("null.stale-pins", "cozy-chess/src/board/mod.rs",
   "            board.pinned = BitBoard::EMPTY;\n            let color = board.side_to_move();", "            let color = board.side_to_move();", "C14", "null", r"O-C14\.null"),
  ("movegen.castle-ignores-rook-pin", "cozy-chess/src/board/movegen/mod.rs",
-  "        !pinned.has(rook)\n            && (blockers & must_be_empty).is_empty()", "        (blockers & must_be_empty).is_empty()", "C01", "gen.king.0", r"O-C01\.gen\.king\.0"),
+  "        !pinned.has(rook)\n            && (blockers & must_be_empty).is_empty()", "        (blockers & must_be_empty).is_empty()", "C01", "fn.king.0", r"O-C01\.fn\.king\.0"),
  ("movegen.pinned-slider-leaves-line", "cozy-chess/src/board/movegen/mod.rs",
   "                let target_squares = target_squares & get_line_rays(our_king, piece);\n                let moves = P::pseudo_legals(piece, blockers) & target_squares;",
-  "                let moves = P::pseudo_legals(piece, blockers) & target_squares;", "C01", "gen.rook.0", r"O-C01\.gen\.rook\.0"),
+  "                let moves = P::pseudo_legals(piece, blockers) & target_squares;", "C01", "fn.rook.0", r"O-C01\.fn\.rook\.0"),
  ("movegen.ep-loop-ignores-mask", "cozy-chess/src/board/movegen/mod.rs",
-  "for piece in get_pawn_attacks(dest, !color) & pieces {", "for piece in get_pawn_attacks(dest, !color) & self.colored_pieces(color, PIECE) {", "C16", "gen.pawn.0", r"O-C16\.gen\.pawn\.0"),
+  "for piece in get_pawn_attacks(dest, !color) & pieces {", "for piece in get_pawn_attacks(dest, !color) & self.colored_pieces(color, PIECE) {", "C16", "fn.pawn.0", r"O-C16\.fn\.pawn\.0"),
  ("is_legal.queen-through-blocker", "cozy-chess/src/board/movegen/mod.rs",
   "                (target_squares & (get_rook_rays(mv.from) | get_bishop_rays(mv.from))).has(mv.to)\n                    && (get_between_rays(mv.from, mv.to) & self.occupied()).is_empty()",
   "                (target_squares & (get_rook_rays(mv.from) | get_bishop_rays(mv.from))).has(mv.to)\n                    && (get_between_rays(mv.from, mv.to) & self.colors(self.side_to_move())).is_empty()", "C04", "queen", r"O-C04\.is-legal\.queen"),
